@@ -102,9 +102,14 @@ def build_shells(shells, convs, types=None):
 
     Custom = make_custom_class()
     out = []
+    shared = {}
     for i, s in enumerate(shells):
         t = (types[i] if types else s["t"])
         perm, labs = convs[i] if convs else (None, None)
+        key = (s["dup_key"], t) if s.get("dup_key") is not None else None
+        if key is not None and key in shared:  # the same shell OBJECT listed twice (bases.add_dup)
+            out.append(shared[key])
+            continue
         if perm is None and labs is None:
             sh = GeneralizedContractionShell(int(s["l"]), np.array(s["c"], float), np.array(s["k"], float), np.array(s["e"], float), bases.TYPES[t])
         else:
@@ -112,6 +117,8 @@ def build_shells(shells, convs, types=None):
             sh._cart_perm, sh._sph_labels = perm, labs
             Custom.__init__(sh, int(s["l"]), np.array(s["c"], float), np.array(s["k"], float), np.array(s["e"], float), bases.TYPES[t])
         out.append(sh)
+        if key is not None:
+            shared[key] = sh
     return out
 
 
@@ -259,6 +266,10 @@ def gen_cases(tier, seed):
         cases.append({"kind": "real", "shells": shells, "conv": conv, "eri": heavy or sum(bases.nfunc(s, "c") for s in shells) <= 14, "seed": [seed, i],
                       "classes": classes + ["real", "conv:" + conv, "types:" + "".join(tp)],
                       "cost": 30 + (sum(bases.nfunc(s, "c") for s in shells) ** 4 / 30 if heavy else 50)})
+    for c in bases.dup_variants("C09", seed, tier, [c for c in cases if c["kind"] == "real" and c["conv"] not in ("iodata", "pyscf")], 3):
+        # one shell listed twice as the same object; keep the coordinate types as they are half of the time
+        c["eri"] = sum(bases.nfunc(s, "c") for s in c["shells"]) <= 14
+        cases.append(c)
     # every permutation / sign convention for l<=1 on real kernels
     for l in (0, 1):
         cases.append({"kind": "real-allconv", "l": l, "seed": [seed, l], "classes": ["real", "allconv:l%d" % l], "cost": 200})
@@ -582,6 +593,10 @@ def run_case(case):
         rng = bases.rng_for("C09", "real", *case["seed"])
         shells = case["shells"]
         convs = [convention(rng, s["l"], case["conv"] if case["conv"] not in ("iodata", "pyscf") else "default") for s in shells]
+        first = {}
+        for j, s in enumerate(shells):  # one object listed twice has one convention
+            if s.get("dup_key") is not None:
+                convs[j] = convs[first.setdefault(s["dup_key"], j)]
         evals += check_real(shells, convs, case["eri"], rng, viols, errs, "conventions: " + case["conv"])
         nontrivial = any(s["t"] == "p" and s["l"] >= 2 for s in shells) or case["conv"] != "default"
     else:
